@@ -38,7 +38,7 @@ CATALOGUE = {
     "include_cpp": "program i\n#ifdef X\n  integer :: a\n#endif\n  include 'missing_file.inc'\n  a = 1\nend program i\n",
     "io_format": "program o\n  open(unit=10, file='x')\n  write(10, 100) 1, 2.0\n100 format(i5, 1x, f10.3)\n  read(*, *) a\n  close(10)\nend program o\n",
     "long_lists": "program l\n  integer :: idx(12), m(3, 3), i\n  real :: v(12)\n  common /blk/ idx, v\n  data idx / 1, 2, 3, 1, 2, 3, 1, 2, 3, 4, 1, 2 /\n  v = (/ 1.0, 2.0, 1.0, 2.0, 1.0, 2.0, 1.0, 2.0, 1.0, 2.0, 1.0, 2.0 /)\n  m(1, 1) = max(i, i, i, i, i, i, i, i, i, i)\n  write(*, 100) i, i, i, i, i, i, i, i, i, i\n100 format(i2, i2, i2, i2, 1x, i2, i2, i2, 1x, i2, i2, i2)\n  do i = 1, 3\n    m(i, i) = i\n  end do\nend program l\n",
-    "repeats": "subroutine r\n  real x, y, z, w, u(2), t(2)\n  integer k, l\n  common /a/ x, y /b/ z /a/ w\n  namelist /g/ x, y /h/ z /g/ w\n  equivalence (u(1), t(1)), (u(1), k), (u(1), l)\n  data k /1/, l /1/\n  save /a/, /b/, /a/\n  x = x + x * x\n  call s(x, x, x)\n  if (x > x) x = x\nend subroutine r\n",
+    "repeats": "subroutine r\n  real x, y, z, w, u(2), t(2)\n  integer k, l\n  real(kind=8) :: d1\n  real(kind=8) :: d2\n  character(len=10) :: c1\n  character(len=10) :: c2\n  integer*4 i4a\n  integer*4 i4b\n  common /a/ x, y /b/ z /a/ w\n  namelist /g/ x, y /h/ z /g/ w\n  equivalence (u(1), t(1)), (u(1), k), (u(1), l)\n  data k /1/, l /1/\n  save /a/, /b/, /a/\n  x = x + x * x\n  call s(x, x, x)\n  if (x > x) x = x\nend subroutine r\n",
     "two_units": "subroutine a\nend subroutine a\nfunction b()\n  b = 1\nend function b\n",
 }
 F2008_EXTRA = {
@@ -128,6 +128,7 @@ def main(argv):
                      [("iface:%d" % i, "module m\ninterface g\n%s\nend interface g\nend module m\n" % x) for i, x in enumerate(ER.IFACE)] + \
                      [("format:%d" % i, "program p\n100 format(%s)\nend program p\n" % x) for i, x in enumerate(ER.FORMATS)]
             programs = programs + [(n, x, std) for n, x in corpus for std in ("f2003", "f2008")]
+        previous = None
         for name, src, std in programs:
             for kw in modes():
                 cases += 1
@@ -141,6 +142,14 @@ def main(argv):
                 if "C10" in only:
                     for p in well_formed(tree):
                         fail("tree#well_formed", wit, p)
+                    # trees of different parses are disjoint and an earlier tree stays well formed after later parses
+                    if previous is not None:
+                        ptree, pwit = previous
+                        if {id(n) for n in all_nodes(ptree)} & {id(n) for n in all_nodes(tree)}:
+                            fail("tree#parses_share_no_node", dict(first=pwit["program"], second=name, std=std, source=src), "a node of an earlier tree occurs in a later one")
+                        for p in well_formed(ptree):
+                            fail("tree#earlier_tree_stays_well_formed", dict(first=pwit["program"], second=name, std=std, source=pwit["source"]), p)
+                    previous = (tree, wit)
                 if "C18" in only:
                     for how, fn in (("deepcopy", copy.deepcopy), ("pickle", lambda t: pickle.loads(pickle.dumps(t)))):
                         try:
